@@ -30,6 +30,9 @@ def check(ctx, tier):
         if o.rule == "C05.e":
             o.rule = "C09.b"
     col_counts(ctx, tk)
+    from .. import viewrules
+    viewrules.column_units(ctx, tk, "C09.f")
+    viewrules.int_column_bounds(ctx, tk, "C09.f")
     from .. import layout
     layout.boundary_gather_rules(ctx, tk, "C09.d", [ctx.func("raggedarray.indexablearray.IndexableArray.get_column_values"), ctx.func(RA + "sum"), ctx.func(RA + "mean")])
     column_values(ctx, tk)
